@@ -22,13 +22,13 @@ package main
 import (
 	"bufio"
 	"fmt"
+	"go/importer"
 	"go/token"
 	"go/types"
 	"os"
 	"strconv"
 	"strings"
 
-	"github.com/goplus/gogen/packages"
 	"github.com/goplus/llgo/ssa"
 	"github.com/goplus/llgo/ssa/abi"
 )
@@ -39,8 +39,9 @@ var rtPkg *types.Package
 
 func loadRuntime() *types.Package {
 	if rtPkg == nil {
-		imp := packages.NewImporter(token.NewFileSet())
-		p, err := imp.Import(ssa.PkgRuntime)
+		// type-checked from source (as ssa/cl_test.go does): the descriptor types (maptype, ptrtype, …) are unexported
+		// aliases that export data does not carry
+		p, err := importer.ForCompiler(token.NewFileSet(), "source", nil).Import(ssa.PkgRuntime)
 		if err != nil {
 			panic("load runtime failed: " + err.Error())
 		}
